@@ -61,6 +61,29 @@ CLAIMS = {
         "requests, both modes: raise-or-correct; shape and coordinates; registration via the reciprocity identity and the all-modes "
         "surface identity; exact low-pass behaviour in Fourier space; clamp equivalence - all for every source field.",
         ref="7/C11", note=KINDL_NOTE + " The cut-off row/column and the mixed clamp case are not asserted."),
+    "C01": dict(
+        technique="symbolic execution of ivp_solver / the whole solver in exact arithmetic (z3 NRA, power-series thicknesses) + affine forms for the upper boundary",
+        text="The convergence RATE is outside reach of an SMT solver; decided are the obligations the convergence theorem needs: "
+        "O1 per-layer consistency of the real ivp_solver for all real profile values (exact arithmetic, formal layer thicknesses: "
+        "order-0, order-1 and the cross term of two layers, stored-level states); O2 prescribed flux at the surface from the whole "
+        "solver run exactly on a 4x4 grid; O3 the decaying constant-coefficient continuation at the top node for concrete profile "
+        "families and all sources. A failed obligation is replayed against a DOP853 Riccati reference (error must shrink 2.5x when dz is quartered).",
+        ref="7/C01", note="Trusted: z3; exact rationals for source literals; csqrt as uninterpreted principal root; stubs as in C02. The theorem "
+        "'consistent+stable => convergent' and the constants are outside the claim."),
+    "C05": dict(
+        technique="symbolic execution: analytic branch on affine forms vs an independent closed-form oracle (z3 QF_LRA); ivp_solver step matrix in exact arithmetic (z3 NRA, unbounded reals)",
+        text="(a) for all sources/backgrounds the analytic mode equals an independent closed-form half-space oracle through the same padding, "
+        "truncation, shift and crop (dispersion, re-centred, off-grid footprint; all halo classes; multi-level). (b) for ALL real Kx,Ky,Kz>0,u,v,"
+        "wavenumbers, dz>0 the step matrix of the real ivp_solver equals the third-order Taylor polynomial of exp(M dz), for one layer and as a "
+        "bottom-up product for two layers. The 'eightfold per halving' statement follows from (b) and is measured only in replay.",
+        ref="7/C05", note=KINDL_NOTE + " Part (b): exact rationals for literals; no bound on the reals."),
+    "C12": dict(
+        technique="symbolic execution with persistent module state on affine forms + precision-taint model; z3 (QF_LRA) form equality per history",
+        text="Python layer only: for every history of <= 2 (quick) / 3 (thorough) operations over 6 solves x NUM_THREADS{1,2,4,8} x FFT-manager reset, "
+        "the last solve equals the same solve in a freshly loaded package as linear forms in the symbolic source, with identical per-cell precision "
+        "taint (value passed through single-precision storage), shapes and coordinates. Bit-identity, cross-thread 1e-12, FFTW/numba internals and "
+        "the magnitude of single-precision rounding are OUTSIDE the claim (FFI / OS threads / IEEE rounding).",
+        ref="7/C12", note=KINDL_NOTE + " pyfftw is modelled as thread-independent; numba as semantics-preserving for both parallel flags."),
 }
 
 PENDING = "check not built yet in this round (work in progress; see DESIGN.md section 7 for the plan)"
